@@ -460,6 +460,87 @@ class NativeSpec:
 
 
 # ------------------------------------------------------------------------------------------------- replay driver
+def _native_frame_violation(con: Contract, ns, memo: dict, built: dict, result):
+    """First location of an entry-state object that changed although `modifies` does not cover it (None if none)."""
+    specs = [m.strip() for m in (con.modifies if con.modifies is not None else ["heap"])]
+    if "heap" in specs:
+        return None
+    id2orig = {}
+    # memo maps id(original) -> twin; originals are reachable from the built parameters
+    seen, stack = set(), list(built.values())
+    while stack:
+        x = stack.pop()
+        if id(x) in seen or isinstance(x, (str, int, float, bool, type(None), _Quiet)):
+            continue
+        seen.add(id(x))
+        if id(x) in memo:
+            id2orig[id(x)] = x
+        if isinstance(x, (list, tuple, set)):
+            stack.extend(x)
+        elif isinstance(x, dict):
+            stack.extend(x.values())
+        elif hasattr(x, "__dict__"):
+            stack.extend(x.__dict__.values())
+            p = getattr(x, "__pydantic_private__", None)
+            if p:
+                stack.extend(p.values())
+
+    def same(now, then):
+        if isinstance(now, (str, int, float, bool, type(None))) or isinstance(then, (str, int, float, bool, type(None))):
+            return now == then and type(now) is type(then)
+        return memo.get(id(now)) is then or now is then
+
+    env = dict(built)
+    env["result"] = result
+
+    def target(expr):
+        try:
+            return ns.ev(ast.parse("(" + expr + ")", mode="eval").body, dict(env))
+        except Exception:
+            return _Quiet
+
+    attr_specs, cont_specs = [], []
+    for m in specs:
+        if m == "alloc":
+            continue
+        if m.endswith("[*]") or m.endswith("{*}"):
+            cont_specs.append(m[:-3])
+        elif "." in m:
+            base, attr = m.rsplit(".", 1)
+            attr_specs.append((base, attr))
+    for oid, orig in id2orig.items():
+        twin = memo[oid]
+        if isinstance(orig, (list, set, dict)):
+            changed = (len(orig) != len(twin)) or (isinstance(orig, list) and any(not same(a, b) for a, b in zip(orig, twin))) \
+                or (isinstance(orig, dict) and (list(orig.keys()) != list(twin.keys()) or any(not same(orig[k], twin[k]) for k in orig)))
+            if changed:
+                if not any(target(c) is orig for c in cont_specs):
+                    return f"contents of a {type(orig).__name__} of the entry state ({repr(orig)[:80]}) changed; modifies = {specs}"
+            continue
+        if not hasattr(orig, "__dict__"):
+            continue
+        fields = dict(orig.__dict__)
+        fields.update(getattr(orig, "__pydantic_private__", None) or {})
+        tfields = dict(getattr(twin, "__dict__", {}))
+        tfields.update(getattr(twin, "__pydantic_private__", None) or {})
+        for a, now in fields.items():
+            if a not in tfields or same(now, tfields[a]):
+                continue
+            ok = False
+            for base, attr in attr_specs:
+                if attr != a:
+                    continue
+                if base in ("_", "ANY"):
+                    ok = True
+                elif base.replace(".", "").isidentifier() and base[0].isupper():
+                    ok = ok or any(c.__name__ == base.split(".")[-1] for c in type(orig).__mro__)
+                else:
+                    ok = ok or target(base) is orig
+            if not ok:
+                return f"{type(orig).__name__}.{a} changed from {tfields[a]!r:.60} to {now!r:.60}; modifies = {specs}"
+    return None
+
+
 def _install_callee_pre_hook(label: str, memo: dict):
     """Run-time check of a callee's contract precondition on the real code: the real callee is wrapped for the duration of the
     replay; each call evaluates the named `requires` clause natively on the actual arguments."""
@@ -663,6 +744,24 @@ def replay(key: str, model: dict, obligation: dict) -> dict:
                 return out
             out["reproduced"] = not holds
             out["detail"] = f"postcondition `{label}` evaluates to {holds} on the real post-state"
+            return out
+        if kind == "frame":
+            # native frame check: every object of the entry state is compared with its deep-copied twin; a change at a
+            # location the contract's `modifies` does not cover is a frame violation shown on the real code
+            if raised is not None:
+                out["detail"] = f"real code raised {type(raised).__name__}; no exit state to compare"
+                return out
+            try:
+                bad = _native_frame_violation(con, ns, memo, built, result)
+            except Exception as ex:
+                out["detail"] = f"native frame comparison failed: {type(ex).__name__}: {ex}"
+                return out
+            if bad:
+                out["reproduced"] = True
+                out["detail"] = ("the real function changed a location outside its declared frame: " + bad)[:400]
+            else:
+                out["reproduced"] = None
+                out["detail"] = "no change outside the declared frame observed natively from this entry state"
             return out
         out["detail"] = f"obligation kind {kind} has no native replay (state is not a function entry state)"
         return out
